@@ -22,6 +22,7 @@ for d in sorted(glob.glob(V+'/seeded/*/meta.json')):
         else:
             det=re.findall(r'failed: ([^@|]+)',r.get('detail',''))
             out.append(f"{prop}: "+{'DETECTED':'**detected**'+(f" ({det[0].strip()[:90]})" if det else ''),'MISSED':'missed','INCONCLUSIVE':'exit 2 (inconclusive)'}[o])
+    if m.get('note'): out.append('note: '+m['note'])
     rows.append(f"| {sid} | {desc} | {'; '.join(out) or 'not run'} |")
 tbl="| seeded change | what it does (from its notes.md) | checks run against it |\n|---|---|---|\n"+"\n".join(rows)
 p=V+'/DESIGN.md'; s=open(p).read()
